@@ -12,6 +12,7 @@ EXPLANATION = (
     "range scan builds both bounds with the table's own key builder with (until,00..) as start and (since,ff..) as "
     "end; each statistics field reports the length of the table of the same name; scans over padded/truncated tag "
     "keys re-verify the full value before acting. Agreement of all filter shapes over all histories is not decided.")
+EXPLANATION += ' Also decided: in every caller, Ok-outcomes of deindex and deindex_id alternate on every path to Ok and address the same event.'
 ASSUMPTIONS = []
 
 
